@@ -6,8 +6,8 @@
  *
  *   probe  HEX LIMIT    create + count + nranges + next-sequence + shift-sequence (on a copy),
  *                       in process:   <status> | <count> <nranges> | <next> | <shift>
- *   fprobe HEX LIMIT    the same in a forked child under per-call limits (2 s CPU, 512 MiB of
- *                       live heap); extra answers: `timeout`, `oom`, `crash <class>`
+ *   fprobe HEX LIMIT [MS]  the same in a forked child under per-call limits (MS, default 2000, ms of CPU;
+ *                       512 MiB of live heap); extra answers: `timeout`, `oom`, `crash <class>`
  *   create HEX          make HEX the current list:  ok <count> <nranges> | null <errno> <fatal>
  *   new                 current list := hostlist_create("")
  *   count | nranges | dump | hosts LIMIT | shift | pop | nth N | push HEX | find HEX |
@@ -135,12 +135,13 @@ static void on_cpu(int sig)
     (void) sig;
     limit_hit("timeout");
 }
-static void cpu_limit(int seconds)
+static void cpu_limit(long ms)
 {
     struct itimerval it;
     memset(&it, 0, sizeof(it));
-    it.it_value.tv_sec = seconds;
-    setitimer(ITIMER_VIRTUAL, &it, NULL);
+    it.it_value.tv_sec = ms / 1000;
+    it.it_value.tv_usec = (ms % 1000) * 1000;
+    setitimer(ITIMER_PROF, &it, NULL);       /* user + system time of this process */
 }
 
 /* ---- hex ---- */
@@ -316,7 +317,7 @@ static char *slurp(int fd, size_t *len)
     return b.p;
 }
 
-static void fprobe(const char *expr, long limit)
+static void fprobe(const char *expr, long limit, long cpums)
 {
     int po[2], pe[2], status = 0;
     pid_t pid;
@@ -333,9 +334,11 @@ static void fprobe(const char *expr, long limit)
         close(po[0]); close(pe[0]);
         dup2(po[1], 1); dup2(pe[1], 2);
         setrlimit(RLIMIT_CORE, &rl);
+        rl.rlim_cur = 6; rl.rlim_max = 8;        /* backstop behind the 2 s timer */
+        setrlimit(RLIMIT_CPU, &rl);
         in_child = 1;
         live_bytes = 0;
-        cpu_limit(2);
+        cpu_limit(cpums);
         probe(expr, limit, &out);
         sb_add(&out, "\n", 1);
         {
@@ -368,6 +371,8 @@ static void fprobe(const char *expr, long limit)
             printf("crash ubsan\n");
         else if (strstr(e, "Assertion"))
             printf("crash assert\n");
+        else if (WIFSIGNALED(status) && (WTERMSIG(status) == SIGXCPU || WTERMSIG(status) == SIGKILL))
+            printf("timeout\n");
         else if (WIFSIGNALED(status))
             printf("crash sig%d\n", WTERMSIG(status));
         else
@@ -390,24 +395,24 @@ int main(int argc, char **argv)
     memset(its, 0, sizeof(its));
     memset(&sa, 0, sizeof(sa));
     sa.sa_handler = on_cpu;
-    sigaction(SIGVTALRM, &sa, NULL);
+    sigaction(SIGPROF, &sa, NULL);
 
     while (fgets(line, sizeof(line), stdin)) {
         char op[32];
-        long num = 0;
+        long num = 0, num2 = 2000;
         int nf;
         a1[0] = 0;
-        nf = sscanf(line, "%31s %s %ld", op, a1, &num);
+        nf = sscanf(line, "%31s %s %ld %ld", op, a1, &num, &num2);
         if (nf < 1) { printf("bad-op\n"); continue; }
         if (!strcmp(op, "probe") || !strcmp(op, "fprobe")) {
             char *x = unhex(a1);
             if (nf < 3) num = 100000;
             if (op[0] == 'f') {
-                fprobe(x, num);
+                fprobe(x, num, num2 > 0 ? num2 : 2000);
             } else {
                 struct sb out = { 0, 0, 0 };
                 live_bytes = 0;
-                cpu_limit(20);
+                cpu_limit(20000);
                 probe(x, num, &out);
                 cpu_limit(0);
                 puts(out.p);
